@@ -59,11 +59,13 @@ Definition slugs_authenticate (c : cert) (p : plugin) : option identity :=
           match p_user p with
           | UUnreachable => None
           | UStatus code =>
-              if code =? 404 then None else
+              if code =? 404 then None else                 (* "Unrecognized user ID" *)
+              if negb (code =? 200) then None else          (* any other status: refused (/repo commit 19af158) *)
               match p_groups p with
               | GUnreachable => None
               | GStatus gcode body =>
                   if gcode =? 404 then None else
+                  if negb (gcode =? 200) then None else
                   match body with
                   | GBadJson => None
                   | GJson groups => Some (user, groups)
@@ -129,11 +131,12 @@ Record step := { out : outcome; call : option identity }.     (* call: process_r
 
 Definition DEFAULT_MAX : Z := 1048576.                          (* self._max_response_size *)
 
-(* `if max_response_size: max_size = max_response_size` *)
+(* `if max_response_size is not None: max_size = max_response_size` (repaired by /repo commit 0ad0134; before it
+   the test was `if max_response_size:` and a requested maximum of 0 was ignored) *)
 Definition effective_max (m : option Z) : Z :=
   match m with
   | None => DEFAULT_MAX
-  | Some v => if v =? 0 then DEFAULT_MAX else v
+  | Some v => v
   end.
 
 Definition send (r : option bytes) : outcome :=
